@@ -400,6 +400,8 @@ class Gen:
             for anc in (spec.get("anchors") or []):
                 if anc.get("with_loops") and not lps and spec.get("loops_if_present"):
                     continue  # proof text that prepares a loop invariant: goes with the loops
+                if anc.get("optional") and not (re.search(anc["after_re"], s[it.body_open:it.end]) if anc.get("after_re") else anc["after"] in s[it.body_open:it.end]):
+                    continue  # proof text for an exit the function may not have (an early `return`)
                 body_txt = s[it.body_open:it.end]
                 pos, startp = -1, 0
                 if anc.get("after_re"):
